@@ -159,7 +159,7 @@ CHECKS = {
         'repetition count follows from C01 + REPEAT semantics + the token-level tie, it is not a single end-to-end theorem.',
    design='5/C08'),
  'C14': dict(
-   technique='Coq proof (strokes of the modelled start/linear/end sequences = documented figures; induction over ticks, passes, vertices, copies) + source translator (the five Marker methods read as sequences of start / linear / end calls; all proved equal to the model except ablation with displaced copies; LaserPath.start / end translated and proved) + stroke-level differential on Marker.points',
+   technique='Coq proof (strokes of the modelled start/linear/end sequences = documented figures; induction over ticks, passes, vertices, copies) + source translator (the five Marker methods read as sequences of start / linear / end calls; all proved equal to the model; LaserPath.start / linear / end translated and proved) + stroke-level differential on Marker.points',
    text='Props/C14.v: for all positions, lengths, tick lists, extents, vertex lists and shifts the open-shutter strokes of the '
         'modelled cross / ruler / meander / ablation / box are exactly the documented figures (two centred arms; one stroke per '
         'distinct tick in increasing y from x_init to the absolute tick x; one stroke of floor(ext/delta)+1 alternating lines; '
@@ -168,8 +168,8 @@ CHECKS = {
         'orientations and directions); femto\'s recorded trajectory is compared point by point with the model and the strokes '
         'of its raw trajectory and of its points matrix with the model\'s strokes. SOURCE TIE: Marker.cross / ruler / meander / '
         'ablation / box are re-translated from /repo on every run (SrcMk.v) over hand-given start / linear / end (coq/tie/MkState.v); '
-        'coq/tie/EquivMk.v proves cross (2-D, 3-D, refusal), ruler, ablation (no displaced copies), box and meander (both orientations, 2-D / 3-D '
-        'start) to record exactly the model\'s trajectory (10 theorems); coq/tie/EquivLb.v proves the translated LaserPath.start / end to be the '
+        'coq/tie/EquivMk.v proves cross (2-D, 3-D, refusal), ruler, ablation (with and without displaced copies), box and meander (both orientations, 2-D / 3-D '
+        'start) to record exactly the model\'s trajectory (12 theorems); coq/tie/EquivLb.v proves the translated LaserPath.start / end to be the '
         'block functions of Path/Laser.v.',
    note='Trusted: Coq kernel; coq/tie/MkState.v (LaserPath.start / linear / end and the numpy calls of marker.py given by hand); exact-rational model vs float32 storage compared within 1e-5*(1+|v|); meander pass counts are '
         'generated away from integer quotients.',
